@@ -63,12 +63,16 @@ func (e *env) newState() {
 	e.line("FP %d %s", e.nstate, e.fp())
 }
 
-func config(seed int) core.Config {
+func config(seed int, scenario string) core.Config {
 	ps := 4096
 	if seed%3 == 2 {
 		ps = 1024
 	}
-	return core.Config{PageSize: ps, AutoVacuum: "none", Rows: 3 + seed%3, Seed: seed, Levels: 2}
+	c := core.Config{PageSize: ps, AutoVacuum: "none", Rows: 3 + seed%3, Seed: seed, Levels: 2}
+	if scenario == "S2" { // chunked catch-up: one DB.Sync publishes several level-0 files (MaxSyncWALBytes = 3 frames)
+		c.MaxBytes = 3 * (ps + 24)
+	}
+	return c
 }
 
 // scenario catalogue (DESIGN 11a). W = application write of one row, G n = growth by n rows, SW = SyncAndWait.
@@ -82,6 +86,8 @@ func schedule(name string, seed int) [][]any {
 	switch name {
 	case "S1": // first sync (snapshot) + upload, one incremental
 		return [][]any{open, W(), SW, G(2), SW, cls}
+	case "S2": // catch-up beyond MaxSyncWALBytes: every chunk of one Sync is a published level-0 file
+		return [][]any{open, W(), SW, G(4), W(), G(3), W(), SW, W(), SW, cls}
 	case "S3": // PASSIVE checkpoint, the WAL restarts under the next write
 		return [][]any{open, W(), SW, W(), SW, {"LsCheckpoint", "PASSIVE"}, W(), SW, G(1), SW, cls}
 	case "S4": // TRUNCATE checkpoint + snapshot at the boundary
@@ -352,7 +358,7 @@ func (e *env) resume() resumeRep {
 
 func main() {
 	work := flag.String("work", "", "work directory")
-	scenario := flag.String("scenario", "", "S1 S3 S4 S5 S6 S7 S9")
+	scenario := flag.String("scenario", "", "S1 S2 S3 S4 S5 S6 S7 S9")
 	seed := flag.Int("seed", 1, "seed")
 	doInspect := flag.Bool("inspect", false, "post-kill observation")
 	doResume := flag.Bool("resume", false, "start litestream again on the same directories")
@@ -367,7 +373,7 @@ func main() {
 	for _, d := range []string{e.fs, e.tmp, e.trash} {
 		os.MkdirAll(d, 0o755)
 	}
-	e.r = core.NewRunner(core.Case{ID: 0, Cfg: config(*seed)}, e.fs, e.tmp)
+	e.r = core.NewRunner(core.Case{ID: 0, Cfg: config(*seed, *scenario)}, e.fs, e.tmp)
 	out := json.NewEncoder(os.Stdout)
 	if *doInspect || *doResume {
 		if *doInspect {
